@@ -1194,3 +1194,1000 @@ Corollary pfx_ok_is_fault_free {A} (m : M A) : pfx m ->
 Proof.
   intros Hm s a s' E. destruct (Hm _ _ _ E) as (ws & T & [C|(C & _)]); [exact C|discriminate].
 Qed.
+
+(* ================================================================== 3b. Mkdir reports: the full statement *)
+(* A small Hoare logic with an exceptional postcondition: from a state in P, an Ok result a
+   ends in Q a, an Err result ends in E; nothing is claimed for Panic / OutOfFuel.  ANY fault
+   schedule. *)
+Definition hr {A} (P : st -> Prop) (Q : A -> st -> Prop) (E : st -> Prop) (m : M A) : Prop :=
+  forall s r s', P s -> m s = (r, s') ->
+  match r with Ok a => Q a s' | Err _ => E s' | _ => True end.
+
+Lemma hr_bind {A B} P (Q : A -> st -> Prop) (R : B -> st -> Prop) E (m : M A) (k : A -> M B) :
+  hr P Q E m -> (forall a, hr (Q a) R E (k a)) -> hr P R E (bind m k).
+Proof.
+  intros Hm Hk s r s' HP H. unfold bind in H. destruct (m s) as [[a|e| |] s1] eqn:E1;
+    pose proof (Hm _ _ _ HP E1) as H1; cbn in H1.
+  - exact (Hk a _ _ _ H1 H).
+  - inversion H; subst. exact H1.
+  - inversion H; subst. exact I.
+  - inversion H; subst. exact I.
+Qed.
+Lemma hr_try {A} P (Q : A -> st -> Prop) E E' (m : M A) :
+  hr P Q E m -> hr P (fun x s' => match x with inl a => Q a s' | inr _ => E s' end) E' (try m).
+Proof.
+  intros Hm s r s' HP H. unfold try in H. destruct (m s) as [[a|e| |] s1] eqn:E1;
+    pose proof (Hm _ _ _ HP E1) as H1; cbn in H1; inversion H; subst; auto.
+Qed.
+Lemma hr_weaken {A} (P P' : st -> Prop) (Q Q' : A -> st -> Prop) (E E' : st -> Prop) (m : M A) :
+  (forall s, P' s -> P s) -> (forall a s, Q a s -> Q' a s) -> (forall s, E s -> E' s) ->
+  hr P Q E m -> hr P' Q' E' m.
+Proof.
+  intros H1 H2 H3 Hm s r s' HP H. specialize (Hm _ _ _ (H1 _ HP) H). destruct r; auto.
+Qed.
+Lemma hr_pure {A} (P : st -> Prop) (m : M A) : PrOrder.keeps m -> hr P (fun _ => P) P m.
+Proof. intros Hk s r s' HP H. rewrite (Hk _ _ _ H). destruct r; auto. Qed.
+Lemma hr_pure' {A} (P E : st -> Prop) (m : M A) :
+  PrOrder.keeps m -> (forall s, P s -> E s) -> hr P (fun _ => P) E m.
+Proof. intros Hk HE s r s' HP H. rewrite (Hk _ _ _ H). destruct r; auto. Qed.
+Lemma hr_ret {A} (P : st -> Prop) (Q : A -> st -> Prop) E a : (forall s, P s -> Q a s) -> hr P Q E (ret a).
+Proof. intros HPQ s r s' HP H. inversion H; subst. auto. Qed.
+Lemma hr_fail {A} (P : st -> Prop) (Q : A -> st -> Prop) (E : st -> Prop) e : (forall s, P s -> E s) -> hr P Q E (@fail A e).
+Proof. intros HPE s r s' HP H. inversion H; subst. auto. Qed.
+Lemma hr_panic {A} (P : st -> Prop) (Q : A -> st -> Prop) (E : st -> Prop) : hr P Q E (@panic A).
+Proof. intros s r s' HP H. inversion H; subst. exact I. Qed.
+Lemma hr_oof {A} (P : st -> Prop) (Q : A -> st -> Prop) (E : st -> Prop) : hr P Q E (@out_of_fuel A).
+Proof. intros s r s' HP H. inversion H; subst. exact I. Qed.
+Lemma hr_modify (P : st -> Prop) (Q : unit -> st -> Prop) E f : (forall s, P s -> Q tt (f s)) -> hr P Q E (modify f).
+Proof. intros HPQ s r s' HP H. inversion H; subst. auto. Qed.
+Lemma hr_false {A} (Q : A -> st -> Prop) E (m : M A) : hr (fun _ => False) Q E m.
+Proof. intros s r s' []. Qed.
+
+Section Mkdir.
+Variables (vi : nat) (v0 : vol) (fsz : N) (c : N).
+Hypothesis L : fat_layout v0 fsz.
+Hypothesis Hfits : PrCrash.fat_fits v0.
+Hypothesis Hroot16 : v_fat32 v0 = false -> v_fat_start v0 + fsz <= v_root_block v0.
+Hypothesis Hc : 2 <= c /\ c < v_clusters v0 + 2.
+
+(* j is a data cluster number of the volume; the entry of j in the first FAT copy; the
+   classification next_cluster makes of an entry *)
+Definition inr_ (j : N) : Prop := 2 <= j /\ j < v_clusters v0 + 2.
+Definition ent (d : disk) (j : N) : N := fat_get d v0 0 j.
+Definition lnk (e : N) : N + err := next_result v0 e.
+
+Lemma inr_in_fat j : inr_ j -> PrCrash.in_fat v0 fsz j.
+Proof. intros (_ & H). exact (layout_sector v0 fsz j L H). Qed.
+
+Lemma lnk_inl e n : lnk e = inl n -> n = e.
+Proof.
+  unfold lnk, next_result. destruct (v_fat32 v0);
+    repeat match goal with |- context [if ?b then _ else _] => destruct b end;
+    intros H; inversion H; reflexivity.
+Qed.
+Lemma lnk_range x : inr_ x -> lnk x = inl x /\ enc v0 x = x.
+Proof.
+  intros (H1 & H2). unfold PrCrash.fat_fits, fat_bad in Hfits. split.
+  - unfold lnk, next_result. destruct (v_fat32 v0).
+    + replace (x =? 0) with false by (symmetry; apply N.eqb_neq; lia).
+      replace (x =? 268435447) with false by (symmetry; apply N.eqb_neq; lia).
+      replace (x =? 1) with false by (symmetry; apply N.eqb_neq; lia).
+      replace (268435448 <=? x) with false by (symmetry; apply N.leb_gt; lia). reflexivity.
+    + replace (x =? 65527) with false by (symmetry; apply N.eqb_neq; lia).
+      replace (65528 <=? x) with false by (symmetry; apply N.leb_gt; lia). reflexivity.
+  - apply enc_cluster; [exact H2|]. destruct (v_fat32 v0); lia.
+Qed.
+Lemma lnk_eof : lnk (enc v0 CL_EOF) = inr EndOfFile /\ enc v0 CL_EOF <> 0.
+Proof. rewrite enc_eof. unfold lnk, next_result. destruct (v_fat32 v0); split; try reflexivity; discriminate. Qed.
+
+(* the invariant of the medium while the directory entry of the new directory is written:
+   FAT sectors are full blocks; the entry of the new cluster c reads end-of-chain; and every
+   allocated data cluster that links somewhere links to an allocated data cluster other than c
+   ("the FAT is closed and nothing points to c") *)
+Record DI (d : disk) : Prop := mk_DI {
+  di_len : PrCrash.fat_len_ok v0 fsz d;
+  di_eoc : lnk (ent d c) = inr EndOfFile;
+  di_closed : forall j n, inr_ j -> ent d j <> 0 -> lnk (ent d j) = inl n ->
+              inr_ n /\ n <> c /\ ent d n <> 0
+}.
+
+(* the first FAT copy of d is that of D *)
+Definition fat1eq (D d : disk) : Prop :=
+  forall k, k < fsz -> disk_get d (fat_copy_sector v0 0 k) = disk_get D (fat_copy_sector v0 0 k).
+(* the first FAT copy of d is that of D with entry y := x *)
+Definition fat1upd (D d : disk) (y x : N) : Prop :=
+  disk_get d (fat_sector v0 0 y) = fat_put_block v0 (disk_get D (fat_sector v0 0 y)) y x /\
+  forall k, k < fsz -> fat_copy_sector v0 0 k <> fat_sector v0 0 y ->
+            disk_get d (fat_copy_sector v0 0 k) = disk_get D (fat_copy_sector v0 0 k).
+Definition nonfat1 (blk : N) : Prop := forall k, k < fsz -> blk <> fat_copy_sector v0 0 k.
+
+Lemma fat1eq_refl D : fat1eq D D. Proof. intros k _. reflexivity. Qed.
+Lemma fat1eq_set D blk b : nonfat1 blk -> fat1eq D (disk_set D blk b).
+Proof. intros H k Hk. apply disk_get_set_other. exact (H k Hk). Qed.
+Lemma fat1eq_trans a b d : fat1eq a b -> fat1eq b d -> fat1eq a d.
+Proof. intros H1 H2 k Hk. rewrite (H2 k Hk). exact (H1 k Hk). Qed.
+Lemma fat1eq_ent D d j : fat1eq D d -> PrCrash.in_fat v0 fsz j -> ent d j = ent D j.
+Proof. intros H Hj. unfold ent, fat_get, fat_sector. rewrite (H _ Hj). reflexivity. Qed.
+
+Lemma DI_fat1eq D d : fat1eq D d -> DI D -> DI d.
+Proof.
+  intros H [H1 H2 H3]. pose proof (inr_in_fat c Hc) as Fc. constructor.
+  - intros k Hk. rewrite (H k Hk). exact (H1 k Hk).
+  - rewrite (fat1eq_ent D d c H Fc). exact H2.
+  - intros j n Hj. rewrite (fat1eq_ent D d j H (inr_in_fat j Hj)). intros Hz Hl.
+    destruct (H3 j n Hj Hz Hl) as (A1 & A2 & A3). split; [exact A1|]. split; [exact A2|].
+    rewrite (fat1eq_ent D d n H (inr_in_fat n A1)). exact A3.
+Qed.
+
+Lemma fat1upd_ent D d y x j : PrCrash.fat_len_ok v0 fsz D -> inr_ y -> fat1upd D d y x ->
+  PrCrash.in_fat v0 fsz j -> ent d j = if j =? y then enc v0 x else ent D j.
+Proof.
+  intros Hlen Hy (Hs & Ho) Hj. unfold ent.
+  apply (PrCrash.half_step v0 fsz D d y x j L Hlen (inr_in_fat y Hy) Hs).
+  intros Hne. exact (Ho _ Hj Hne).
+Qed.
+Lemma fat1upd_len D d y x : PrCrash.fat_len_ok v0 fsz D -> inr_ y -> fat1upd D d y x ->
+  PrCrash.fat_len_ok v0 fsz d.
+Proof.
+  intros Hlen Hy (Hs & Ho) k Hk.
+  destruct (N.eq_dec (fat_copy_sector v0 0 k) (fat_sector v0 0 y)) as [E|Hne].
+  - rewrite E, Hs. apply fat_put_block_length. apply Hlen. exact (inr_in_fat y Hy).
+  - rewrite (Ho k Hk Hne). exact (Hlen k Hk).
+Qed.
+
+(* an update of entry y (not c) with end-of-chain, or with a link to an allocated data
+   cluster (not c), keeps the invariant; and allocated entries stay allocated *)
+Definition updok (d : disk) (y x : N) : Prop :=
+  inr_ y /\ y <> c /\ (x = CL_EOF \/ (inr_ x /\ x <> c /\ x <> y /\ ent d x <> 0)).
+
+Lemma upd_nonzero D y x : updok D y x -> enc v0 x <> 0.
+Proof.
+  intros (_ & _ & [->|((X1 & X2) & _)]); [exact (proj2 lnk_eof)|].
+  rewrite (proj2 (lnk_range x (conj X1 X2))). lia.
+Qed.
+
+Lemma DI_upd D d y x : DI D -> updok D y x -> fat1upd D d y x -> DI d.
+Proof.
+  intros [H1 H2 H3] Hok Hu. pose proof Hok as (Hy & Hyc & Hx).
+  pose proof (upd_nonzero D y x Hok) as Hnz.
+  assert (Hent : forall j, inr_ j -> ent d j = if j =? y then enc v0 x else ent D j).
+  { intros j Hj. apply fat1upd_ent; auto. apply inr_in_fat. exact Hj. }
+  constructor.
+  - eapply fat1upd_len; eauto.
+  - rewrite (Hent c Hc). destruct (N.eqb_spec c y) as [E|_]; [congruence|exact H2].
+  - intros j n Hj. rewrite (Hent j Hj). destruct (N.eqb_spec j y) as [->|Hjy].
+    + intros _ Hl. destruct Hx as [->|(X1 & X2 & X3 & X4)].
+      * rewrite (proj1 lnk_eof) in Hl. discriminate.
+      * rewrite (proj2 (lnk_range x X1)), (proj1 (lnk_range x X1)) in Hl. injection Hl as <-.
+        split; [exact X1|]. split; [exact X2|]. rewrite (Hent x X1).
+        destruct (N.eqb_spec x y); [contradiction|exact X4].
+    + intros Hz Hl. destruct (H3 j n Hj Hz Hl) as (A1 & A2 & A3).
+      split; [exact A1|]. split; [exact A2|]. rewrite (Hent n A1).
+      destruct (N.eqb_spec n y); [exact Hnz|exact A3].
+Qed.
+
+Lemma upd_keeps_alloc D d y x p : DI D -> updok D y x -> fat1upd D d y x -> inr_ p ->
+  ent D p <> 0 -> ent d p <> 0.
+Proof.
+  intros [H1 _ _] Hok Hu Hp Hz. pose proof Hok as (Hy & _).
+  rewrite (fat1upd_ent D d y x p H1 Hy Hu (inr_in_fat p Hp)).
+  destruct (N.eqb_spec p y); [exact (upd_nonzero D y x Hok)|exact Hz].
+Qed.
+
+(* ---- state assertions ---- *)
+(* the record of volume vi has the geometry of v0 and a hint that is no reserved entry *)
+Definition geoh (s : st) : Prop :=
+  exists w, nth_error (s_vols s) vi = Some w /\ PrChain.geo_eq v0 w /\ hint_ok w.
+Definition MI (s : st) : Prop := geoh s /\ cache_ok s /\ DI (s_disk s).
+(* a block is being prepared in the buffer (tagged blk, not yet written) *)
+Definition MIp (blk : N) (s : st) : Prop := geoh s /\ DI (s_disk s) /\ s_tag s = Some blk.
+(* extra facts about the first FAT copy that the steps below carry along *)
+Definition st1 (X : disk -> Prop) : Prop := forall D d, fat1eq D d -> X D -> X d.
+Definition st2 (X : disk -> Prop) : Prop :=
+  forall D d y x, DI D -> updok D y x -> fat1upd D d y x -> X D -> X d.
+
+Lemma geoh_vols s s' : s_vols s' = s_vols s -> geoh s -> geoh s'.
+Proof. intros E (w & H1 & H2). exists w. rewrite E. auto. Qed.
+
+Lemma geo_w w : PrChain.geo_eq v0 w ->
+  fat_layout w fsz /\ v_clusters w = v_clusters v0 /\ v_fat32 w = v_fat32 v0 /\ v_spc w = v_spc v0 /\
+  v_second_fat w = v_second_fat v0 /\ v_root_entries w = v_root_entries v0 /\
+  v_lba w = v_lba v0 /\ v_root_block w = v_root_block v0 /\
+  (forall k y, fat_sector w k y = fat_sector v0 k y) /\
+  (forall b y x, fat_put_block w b y x = fat_put_block v0 b y x) /\
+  (forall d j, PrAlloc.fat_entry d w j = ent d j) /\
+  (forall e, next_result w e = lnk e) /\
+  (forall cl, cluster_first_block w cl = cluster_first_block v0 cl).
+Proof.
+  intros G. split; [exact (PrChain.geo_layout _ _ _ G L)|]. destruct G as (a & b & ->).
+  repeat split; try reflexivity. intros d j. rewrite fat_entry_get. reflexivity.
+Qed.
+
+Lemma fat1upd_after D y x : PrCrash.in_fat v0 fsz y ->
+  fat1upd D (fat_disk_after (v_second_fat v0) D (fat_sector v0 0 y) (fat_sector v0 1 y)
+               (fat_put_block v0 (disk_get D (fat_sector v0 0 y)) y x)) y x.
+Proof.
+  intros Hy. split; [apply fat_disk_after_this|]. intros k Hk Hne.
+  unfold fat_disk_after. destruct (v_second_fat v0) as [sf|] eqn:E.
+  - rewrite !disk_get_set_other; [reflexivity|congruence|].
+    intros E1. exact (PrCrash.sec01_ne v0 fsz sf k _ L E Hk (eq_sym E1)).
+  - rewrite disk_get_set_other by congruence. reflexivity.
+Qed.
+Lemma fat1upd_first D y x :
+  fat1upd D (disk_set D (fat_sector v0 0 y) (fat_put_block v0 (disk_get D (fat_sector v0 0 y)) y x)) y x.
+Proof.
+  split; [apply disk_get_set_same|]. intros k Hk Hne. apply disk_get_set_other. congruence.
+Qed.
+
+(* ---- the primitive steps ---- *)
+Lemma T_get_vol (P : st -> Prop) E : (forall s, P s -> geoh s) ->
+  hr P (fun w s' => P s' /\ nth_error (s_vols s') vi = Some w /\ PrChain.geo_eq v0 w /\ hint_ok w) E (get_vol vi).
+Proof.
+  intros HP s r s' H E0. destruct (HP _ H) as (w & Hw & G & Hh).
+  rewrite (get_vol_some vi w s Hw) in E0. inversion E0; subst. auto.
+Qed.
+
+Lemma T_cache_read X blk :
+  hr (fun s => MI s /\ X (s_disk s))
+     (fun b s' => MI s' /\ X (s_disk s') /\ s_tag s' = Some blk) MI (cache_read blk).
+Proof.
+  intros s r s' ((Hg & Hc0 & HD) & HX) E0.
+  destruct (cache_read_any _ _ _ _ E0) as (M & D & C & Hr).
+  assert (HM : MI s').
+  { split; [exact (geoh_vols _ _ (same_mgr_vols_eq _ _ M) Hg)|]. split; [exact (C Hc0)|]. rewrite D. exact HD. }
+  destruct Hr as [(-> & _)|(b & -> & T & _)]; [exact HM|]. rewrite D. auto.
+Qed.
+
+Lemma T_write_back X blk : nonfat1 blk -> st1 X ->
+  hr (fun s => MIp blk s /\ X (s_disk s)) (fun _ s' => MI s' /\ X (s_disk s')) MI write_back.
+Proof.
+  intros Hb HX1 s r s' ((Hg & HD & Ht) & HX) E0.
+  destruct (write_back_any _ _ _ E0) as (M & W). rewrite Ht in W.
+  pose proof (geoh_vols _ _ (same_mgr_vols_eq _ _ M) Hg) as Hg'.
+  destruct W as [(-> & Wd & Wt & Wc)|(-> & Wd & Wt)].
+  - assert (F : fat1eq (s_disk s) (s_disk s')) by (rewrite Wd; apply fat1eq_set; exact Hb).
+    split; [|exact (HX1 _ _ F HX)]. split; [exact Hg'|]. split; [|exact (DI_fat1eq _ _ F HD)].
+    intros j Hj. rewrite Wt in Hj. inversion Hj; subst j. rewrite Wc, Wd, disk_get_set_same. reflexivity.
+  - split; [exact Hg'|]. split; [|rewrite Wd; exact HD]. intros j Hj. rewrite Wt in Hj. discriminate.
+Qed.
+
+Lemma T_blank_mut X i E :
+  hr (fun s => MI s /\ X (s_disk s)) (fun _ s' => MIp i s' /\ X (s_disk s')) E (blank_mut i).
+Proof.
+  apply hr_modify. intros s ((Hg & _ & HD) & HX). split; [|exact HX].
+  split; [exact Hg|]. split; [exact HD|reflexivity].
+Qed.
+
+Lemma T_cache_modify X blk f E :
+  hr (fun s => MIp blk s /\ X (s_disk s)) (fun _ s' => MIp blk s' /\ X (s_disk s')) E (cache_modify f).
+Proof. apply hr_modify. intros s ((Hg & HD & Ht) & HX). split; [|exact HX]. split; [exact Hg|]. split; [exact HD|exact Ht]. Qed.
+
+(* the clock is no part of any assertion used here *)
+Definition noclock (P : st -> Prop) : Prop := forall s x, P s -> P (set_s_clock s x).
+Lemma T_get_timestamp (P : st -> Prop) E : noclock P -> hr P (fun _ => P) E get_timestamp.
+Proof.
+  intros HP s r s' H E0. unfold get_timestamp in E0. rewrite bind_get in E0.
+  unfold bind, modify, ret in E0. inversion E0; subst. apply HP. exact H.
+Qed.
+Lemma noclock_MI X : noclock (fun s => MI s /\ X (s_disk s)).
+Proof. intros s x H. exact H. Qed.
+Lemma noclock_MI_tag X blk : noclock (fun s => MI s /\ X (s_disk s) /\ s_tag s = Some blk).
+Proof. intros s x H. exact H. Qed.
+
+(* update_fat: Ok - the entry is set, the invariant and the extra facts hold; Err - the
+   invariant holds (the medium is unchanged, or the first copy alone was updated) *)
+Lemma T_update_fat X y x : st2 X ->
+  hr (fun s => MI s /\ X (s_disk s) /\ updok (s_disk s) y x)
+     (fun _ s' => MI s' /\ X (s_disk s') /\ ent (s_disk s') y = enc v0 x) MI (update_fat vi y x).
+Proof.
+  intros HX2 s r s' ((Hg & Hc0 & HD) & HX & Hok) E0.
+  pose proof Hok as (Hy & _).
+  destruct Hg as (w & Hw & G & Hh).
+  destruct (geo_w w G) as (Lw & Ecl & _ & _ & Esf & _ & _ & _ & Esec & Eput & _).
+  assert (Ha : fat_addr_ok w y) by (apply (layout_addr w fsz y Lw); rewrite Ecl; exact (proj2 Hy)).
+  destruct (update_fat_any vi y x s w r s' Hc0 Hw Ha E0) as (M & C & Dc). cbv zeta in Dc.
+  rewrite !Esec, Eput, Esf in Dc.
+  assert (Hg' : geoh s').
+  { exists w. rewrite (same_mgr_vols_eq _ _ M). auto. }
+  assert (Hupd : forall d, fat1upd (s_disk s) d y x ->
+            DI d /\ X d /\ ent d y = enc v0 x).
+  { intros d Hu. split; [exact (DI_upd _ _ _ _ HD Hok Hu)|]. split; [exact (HX2 _ _ _ _ HD Hok Hu HX)|].
+    rewrite (fat1upd_ent _ _ _ _ y (di_len _ HD) Hy Hu (inr_in_fat y Hy)), N.eqb_refl. reflexivity. }
+  destruct Dc as [(-> & Dd)|[(-> & Dd)|(-> & Dd)]].
+  - split; [exact Hg'|]. split; [exact C|]. rewrite Dd. exact HD.
+  - destruct (Hupd (s_disk s')) as (A1 & A2 & A3); [rewrite Dd; apply fat1upd_after, inr_in_fat; exact Hy|].
+    split; [split; [exact Hg'|split; [exact C|exact A1]]|]. auto.
+  - destruct (Hupd (s_disk s')) as (A1 & A2 & A3); [rewrite Dd; apply fat1upd_first|].
+    split; [exact Hg'|split; [exact C|exact A1]].
+Qed.
+
+Lemma MI_same s s' : same_mgr s s' -> s_disk s' = s_disk s -> cache_ok s' -> MI s -> MI s'.
+Proof.
+  intros M D C (Hg & _ & HD). split; [exact (geoh_vols _ _ (same_mgr_vols_eq _ _ M) Hg)|].
+  split; [exact C|]. rewrite D. exact HD.
+Qed.
+
+(* the free-entry search: reads only; an Ok result is an entry in the range that reads 0 *)
+Lemma T_find X w endc : PrChain.geo_eq v0 w -> endc <= v_clusters v0 + 2 ->
+  forall fuel cur,
+  hr (fun s => MI s /\ X (s_disk s))
+     (fun a s' => MI s' /\ X (s_disk s') /\ cur <= a /\ a < endc /\ ent (s_disk s') a = 0)
+     (fun s' => MI s' /\ X (s_disk s'))
+     (find_next_free_loop fuel w cur endc).
+Proof.
+  intros G Hend. destruct (geo_w w G) as (Lw & Ecl & _ & _ & _ & _ & _ & _ & _ & _ & Eent & _).
+  pose proof (fl_vol w fsz Lw) as Hv.
+  induction fuel as [|f IH]; intros cur s r s' (HM & HX) E0; cbn [find_next_free_loop] in E0.
+  { inversion E0; subst. exact I. }
+  destruct (cur <? endc) eqn:Hlt; [|inversion E0; subst; split; assumption].
+  apply N.ltb_lt in Hlt.
+  change (if v_fat32 w then 4 else 2) with (fat_w w) in E0.
+  assert (Hcur : cur < v_clusters w + 2) by (rewrite Ecl; lia).
+  rewrite (bind_ok _ _ _ _ _ (entry_mul_ok w cur s Hv Hcur)) in E0.
+  rewrite (bind_ok _ _ _ _ _ (fat_sector_ok w cur s Hv Hcur)) in E0.
+  unfold bind at 1 in E0.
+  destruct (cache_read (v_lba w + v_fat_start w + cur * fat_w w / 512) s) as [o1 s1] eqn:E1.
+  destruct (cache_read_any _ _ _ _ E1) as (M & D & C & Hr).
+  assert (HM1 : MI s1) by (apply (MI_same s); auto; apply C; apply HM).
+  assert (HX1 : X (s_disk s1)) by (rewrite D; exact HX).
+  destruct Hr as [(-> & _)|(b & -> & _ & _ & Hb)]; [inversion E0; subst; split; assumption|].
+  specialize (Hb (proj1 (proj2 HM))).
+  pose proof (fat_w_cases w) as Hw.
+  destruct (scan_sector 257 (v_fat32 w) b ((cur * fat_w w) mod 512) cur endc) as [[a|] cur'] eqn:Hs.
+  - inversion E0; subst r s'.
+    pose proof (scan_sector_sound _ _ _ _ _ _ _ _ Hs) as (S1 & S2 & S3 & S4).
+    change (if v_fat32 w then 4 else 2) with (fat_w w) in *.
+    split; [exact HM1|]. split; [exact HX1|]. split; [exact S1|]. split; [exact S2|].
+    rewrite D, <- Eent.
+    destruct (same_sector (fat_w w) cur a Hw S1 S4) as (Q1 & Q2).
+    rewrite fat_entry_at_eq, Q1, Q2, <- Hb. exact S3.
+  - destruct (scan_sector_none _ _ _ _ _ _ _ Hs) as (N1 & _).
+    pose proof (IH cur' s1 r s' (conj HM1 HX1) E0) as T.
+    destruct r as [a| | |]; auto. destruct T as (A1 & A2 & A3 & A4 & A5).
+    split; [exact A1|]. split; [exact A2|]. split; [clear - A3 N1; lia|]. split; [exact A4|exact A5].
+Qed.
+
+(* the block loops *)
+Lemma T_loop {R} (P : st -> Prop) (body : N -> M (option R)) lo hi :
+  (forall i, lo <= i -> i < hi -> hr P (fun _ => P) MI (body i)) ->
+  forall n i, lo <= i -> i + N.of_nat n <= hi -> hr P (fun _ => P) MI (for_blocks_from n i body).
+Proof.
+  intros Hb. induction n as [|n IH]; intros i H1 H2; cbn [for_blocks_from].
+  - apply hr_ret. auto.
+  - apply (hr_bind _ (fun _ => P)); [apply Hb; lia|].
+    intros [x|]; [apply hr_ret; auto|]. apply IH; lia.
+Qed.
+
+Lemma T_blank_write X i : nonfat1 i -> st1 X ->
+  hr (fun s => MI s /\ X (s_disk s)) (fun (_ : option unit) s' => MI s' /\ X (s_disk s')) MI
+     (blank_mut i ;;; write_back ;;; ret None).
+Proof.
+  intros Hi HX. eapply hr_bind; [apply T_blank_mut|]. intros ?; cbn beta.
+  eapply hr_bind; [apply T_write_back; assumption|]. intros ?; cbn beta. apply hr_ret. auto.
+Qed.
+
+Lemma cluster_blocks_nonfat1 p k : inr_ p -> k < v_spc v0 -> nonfat1 (cluster_first_block v0 p + k).
+Proof.
+  intros (H1 & _) Hk q Hq E. exact (fat_sector_not_data v0 fsz 0 q p k L Hq H1 (eq_sym E)).
+Qed.
+
+Lemma T_zero X w new : PrChain.geo_eq v0 w -> inr_ new -> st1 X ->
+  hr (fun s => MI s /\ X (s_disk s)) (fun _ s' => MI s' /\ X (s_disk s')) MI (zero_cluster w new).
+Proof.
+  intros G Hn HX s r s' HP E0.
+  destruct (geo_w w G) as (Lw & Ecl & _ & Espc & _ & _ & _ & _ & _ & _ & _ & _ & Ecfb).
+  pose proof (fl_vol w fsz Lw) as Hv.
+  unfold zero_cluster in E0.
+  assert (H2 : new < v_clusters w + 2) by (rewrite Ecl; exact (proj2 Hn)).
+  rewrite (bind_ok _ _ _ _ _ (proj1 (cluster_block_ok w new s Hv (proj1 Hn) H2))) in E0.
+  rewrite Ecfb, Espc in E0. revert s r s' HP E0.
+  change (hr (fun s => MI s /\ X (s_disk s)) (fun (_ : unit) s' => MI s' /\ X (s_disk s')) MI
+            (_ <- for_blocks (cluster_first_block v0 new) (v_spc v0)
+                    (fun i => blank_mut i ;;; write_back ;;; ret (@None unit)) ;; ret tt)).
+  eapply hr_bind; [|intros ?; apply hr_ret; intros ? H; exact H].
+  unfold for_blocks. eapply hr_bind.
+  { apply hr_pure'; [apply PrOrder.keeps_add32|intros s H; exact (proj1 H)]. }
+  intros ?. apply (T_loop _ _ (cluster_first_block v0 new) (cluster_first_block v0 new + v_spc v0)).
+  - intros i H1 H3. replace i with (cluster_first_block v0 new + (i - cluster_first_block v0 new)) by lia.
+    apply T_blank_write; [|exact HX]. apply cluster_blocks_nonfat1; [exact Hn|lia].
+  - lia.
+  - lia.
+Qed.
+
+(* stepping through a bind in a hypothesis with a triple T and a proof HP of its precondition *)
+Ltac hstep T HP x :=
+  match goal with
+  | H : bind ?m ?k ?s = (?r, ?s') |- _ =>
+      let o1 := fresh "o" in let s1 := fresh "s" in let E1 := fresh "E" in let T1 := fresh "T" in
+      unfold bind at 1 in H; destruct (m s) as [o1 s1] eqn:E1;
+      pose proof (T s o1 s1 HP E1) as T1; cbn beta iota in T1;
+      destruct o1 as [x|?e| |];
+      [ cbn beta in H | inversion H; subst; clear H | inversion H; subst; exact I | inversion H; subst; exact I ]
+  end.
+
+Definition stb (X : disk -> Prop) : Prop := st1 X /\ st2 X.
+Lemma stb_alloc p : inr_ p -> stb (fun d => ent d p <> 0).
+Proof.
+  intros Hp. split.
+  - intros D d F H. rewrite (fat1eq_ent D d p F (inr_in_fat p Hp)). exact H.
+  - intros D d y x HD Hok Hu H. exact (upd_keeps_alloc D d y x p HD Hok Hu Hp H).
+Qed.
+Lemma stb_and X Y : stb X -> stb Y -> stb (fun d => X d /\ Y d).
+Proof.
+  intros (A1 & A2) (B1 & B2). split.
+  - intros D d F (H1 & H2). split; [exact (A1 _ _ F H1)|exact (B1 _ _ F H2)].
+  - intros D d y x HD Hok Hu (H1 & H2). split; [exact (A2 _ _ _ _ HD Hok Hu H1)|exact (B2 _ _ _ _ HD Hok Hu H2)].
+Qed.
+Lemma stb_true : stb (fun _ => True).
+Proof. split; [intros D d _ _; exact I|intros D d y x _ _ _ _; exact I]. Qed.
+
+Lemma eoc_not_free d : DI d -> ent d c <> 0.
+Proof.
+  intros [_ H _] E. rewrite E in H. unfold lnk, next_result in H. destruct (v_fat32 v0); cbn in H; discriminate.
+Qed.
+
+(* alloc_cluster after the new cluster has been found, for prev = Some last, zero = true *)
+Definition alloc_rest (w : vol) (endc last new : N) : M N :=
+  update_fat vi new CL_EOF ;;;
+  zero_cluster w new ;;;
+  update_fat vi last new ;;;
+  r2 <- try (find_next_free_cluster w new endc) ;;
+  nf <- match r2 with
+        | inl c => ret (Some c)
+        | inr NotEnoughSpace =>
+            if RESERVED_ENTRIES <? new then
+              r3 <- try (find_next_free_cluster w RESERVED_ENTRIES endc) ;;
+              match r3 with
+              | inl c => ret (Some c)
+              | inr NotEnoughSpace => ret None
+              | inr e => fail e
+              end
+            else ret None
+        | inr e => fail e
+        end ;;
+  v1 <- get_vol vi ;;
+  let fc := match v_free v1 with
+            | Some n => if 1 <=? n then Some (n - 1) else None
+            | None => None end in
+  put_vol vi (set_v_free (set_v_next_free v1 nf) fc) ;;;
+  ret new.
+
+Lemma T_alloc_rest X w endc last new :
+  PrChain.geo_eq v0 w -> endc = v_clusters v0 + 2 -> stb X -> inr_ last -> last <> c -> inr_ new ->
+  hr (fun s => MI s /\ X (s_disk s) /\ ent (s_disk s) last <> 0 /\ ent (s_disk s) new = 0)
+     (fun a s' => a = new /\ MI s' /\ X (s_disk s') /\ ent (s_disk s') new <> 0) MI
+     (alloc_rest w endc last new).
+Proof.
+  intros G Hend HX Hl Hlc Hn s r s' (HM & HXs & Hal & Hfree) E0. unfold alloc_rest in E0.
+  assert (Hnc : new <> c) by (intros ->; exact (eoc_not_free _ (proj2 (proj2 HM)) Hfree)).
+  assert (Hnl : new <> last) by (intros ->; contradiction).
+  pose proof (stb_alloc last Hl) as SL. pose proof (stb_alloc new Hn) as SN.
+  (* entry new := end of chain *)
+  set (X1 := fun d => X d /\ ent d last <> 0).
+  assert (S1 : stb X1) by (apply stb_and; assumption).
+  assert (P1 : MI s /\ X1 (s_disk s) /\ updok (s_disk s) new CL_EOF).
+  { split; [exact HM|]. split; [split; assumption|]. split; [exact Hn|]. split; [exact Hnc|]. left; reflexivity. }
+  hstep (T_update_fat X1 new CL_EOF (proj2 S1)) P1 u1.
+  2:{ exact T. }
+  destruct T as (HM1 & (HX1 & Hal1) & Hnew1).
+  assert (Hnz1 : ent (s_disk s0) new <> 0) by (rewrite Hnew1; exact (proj2 lnk_eof)).
+  (* the new cluster is zeroed *)
+  set (X2 := fun d => X1 d /\ ent d new <> 0).
+  assert (S2 : stb X2) by (apply stb_and; assumption).
+  assert (P2 : MI s0 /\ X2 (s_disk s0)) by (split; [exact HM1|]; split; [split; assumption|assumption]).
+  hstep (T_zero X2 w new G Hn (proj1 S2)) P2 u2.
+  2:{ exact T. }
+  destruct T as (HM2 & (HX2 & Hal2) & Hnz2).
+  (* entry last := new *)
+  set (X3 := fun d => X d /\ ent d new <> 0).
+  assert (S3 : stb X3) by (apply stb_and; assumption).
+  assert (P3 : MI s1 /\ X3 (s_disk s1) /\ updok (s_disk s1) last new).
+  { split; [exact HM2|]. split; [split; assumption|]. split; [exact Hl|]. split; [exact Hlc|].
+    right. repeat split; try assumption; apply Hn. }
+  hstep (T_update_fat X3 last new (proj2 S3)) P3 u3.
+  2:{ exact T. }
+  destruct T as (HM3 & HX3 & _).
+  (* the tail: the record of the volume gets the new hint *)
+  assert (Htail : forall nf s4, MI s4 /\ X3 (s_disk s4) -> (forall h, nf = Some h -> 2 <= h) ->
+            (v1 <- get_vol vi ;;
+             let fc := match v_free v1 with
+                       | Some n => if 1 <=? n then Some (n - 1) else None
+                       | None => None end in
+             put_vol vi (set_v_free (set_v_next_free v1 nf) fc) ;;; ret new) s4 = (r, s') ->
+            match r with
+            | Ok a => a = new /\ MI s' /\ X (s_disk s') /\ ent (s_disk s') new <> 0
+            | Err _ => MI s'
+            | _ => True
+            end).
+  { intros nf s4 ((Hg4 & Hc4 & HD4) & HX4 & Hnz4) Hnf E4.
+    destruct Hg4 as (w4 & Hw4 & G4 & Hh4).
+    rewrite (bind_ok _ _ _ _ _ (get_vol_some vi w4 s4 Hw4)) in E4. cbv zeta in E4.
+    unfold put_vol, bind, modify, ret in E4. inversion E4; subst r s'. clear E4.
+    split; [reflexivity|]. split; [|split; assumption].
+    split; [|split; assumption].
+    eexists. split; [cbn [s_vols set_s_vols]; exact (PrAllocEffect.ls_nth_same _ _ _ _ Hw4)|].
+    split; [auto with gk|]. intros h Eh. cbn in Eh. exact (Hnf h Eh). }
+  (* the search for the next hint *)
+  unfold find_next_free_cluster in E0.
+  assert (Hendle : endc <= v_clusters v0 + 2) by lia.
+  hstep (hr_try _ _ _ MI _ (T_find X3 w endc G Hendle (N.to_nat (endc / 128) + 3) new)) (conj HM3 HX3) a2.
+  2:{ exact T. }
+  destruct a2 as [a2|e2].
+  - destruct T as (HM4 & HX4 & R1 & _). rewrite bind_ret in E0.
+    apply (Htail (Some a2) s3 (conj HM4 HX4)); [|exact E0]. intros h Eh. injection Eh as <-. destruct Hn. lia.
+  - destruct T as (HM4 & HX4).
+    destruct e2; try (rewrite bind_fail in E0; inversion E0; subst; exact HM4).
+    destruct (RESERVED_ENTRIES <? new); cbv iota in E0.
+    + rewrite PrDir.bind_bind in E0.
+      hstep (hr_try _ _ _ MI _ (T_find X3 w endc G Hendle (N.to_nat (endc / 128) + 3) RESERVED_ENTRIES)) (conj HM4 HX4) a3.
+      2:{ exact T. }
+      destruct a3 as [a3|e3].
+      * destruct T as (HM5 & HX5 & R1 & _). rewrite bind_ret in E0.
+        apply (Htail (Some a3) s4 (conj HM5 HX5)); [|exact E0]. intros h Eh. injection Eh as <-. exact R1.
+      * destruct T as (HM5 & HX5).
+        destruct e3; try (rewrite bind_fail in E0; inversion E0; subst; exact HM5).
+        rewrite bind_ret in E0. apply (Htail None s4 (conj HM5 HX5)); [|exact E0]. intros h Eh. discriminate.
+    + rewrite bind_ret in E0. apply (Htail None s3 (conj HM4 HX4)); [|exact E0]. intros h Eh. discriminate.
+Qed.
+
+(* alloc_cluster extending the chain of `last` by a zeroed cluster, under ANY schedule: an Ok
+   result is an allocated data cluster other than c; an Err result leaves the invariant *)
+Lemma T_alloc X last : stb X -> inr_ last -> last <> c ->
+  hr (fun s => MI s /\ X (s_disk s) /\ ent (s_disk s) last <> 0)
+     (fun a s' => MI s' /\ X (s_disk s') /\ inr_ a /\ a <> c /\ ent (s_disk s') a <> 0) MI
+     (alloc_cluster vi (Some last) true).
+Proof.
+  intros HX Hl Hlc s r s' (HM & HXs & Hal) E0. unfold alloc_cluster in E0.
+  destruct (proj1 HM) as (w & Hw & G & Hh).
+  rewrite (bind_ok _ _ _ _ _ (get_vol_some vi w s Hw)) in E0.
+  destruct (geo_w w G) as (Lw & Ecl & _).
+  unfold bind at 1 in E0.
+  destruct (add32 (v_clusters w) RESERVED_ENTRIES s) as [o1 s1] eqn:Ea.
+  unfold add32 in Ea. destruct (v_clusters w + RESERVED_ENTRIES <? U32); inversion Ea; subst o1 s1; clear Ea;
+    [|inversion E0; subst; exact I].
+  cbv beta iota zeta in E0. rewrite Ecl in E0.
+  remember (match v_next_free w with
+            | Some c0 => if c0 <? v_clusters v0 + RESERVED_ENTRIES then c0 else RESERVED_ENTRIES
+            | None => RESERVED_ENTRIES end) as start eqn:Estart.
+  assert (Hs1 : 2 <= start).
+  { subst start. unfold RESERVED_ENTRIES. destruct (v_next_free w) as [c0|] eqn:En; [|lia].
+    destruct (c0 <? v_clusters v0 + 2); [|lia]. exact (Hh c0 En). }
+  set (X1 := fun d => X d /\ ent d last <> 0).
+  assert (Hendle : v_clusters v0 + RESERVED_ENTRIES <= v_clusters v0 + 2) by (unfold RESERVED_ENTRIES; lia).
+  assert (Hrest : forall a s1, MI s1 /\ X1 (s_disk s1) -> start <= a \/ 2 <= a -> a < v_clusters v0 + RESERVED_ENTRIES ->
+            ent (s_disk s1) a = 0 ->
+            alloc_rest w (v_clusters v0 + RESERVED_ENTRIES) last a s1 = (r, s') ->
+            match r with
+            | Ok a => MI s' /\ X (s_disk s') /\ inr_ a /\ a <> c /\ ent (s_disk s') a <> 0
+            | Err _ => MI s'
+            | _ => True
+            end).
+  { intros a s1 (HM1 & HX1 & Hal1) Hlo Hhi Hz Er. unfold RESERVED_ENTRIES in Hhi.
+    assert (Ha : inr_ a) by (split; [destruct Hlo; lia|exact Hhi]).
+    assert (Hac : a <> c) by (intros ->; exact (eoc_not_free _ (proj2 (proj2 HM1)) Hz)).
+    pose proof (T_alloc_rest X w _ last a G eq_refl HX Hl Hlc Ha s1 r s'
+                  (conj HM1 (conj HX1 (conj Hal1 Hz))) Er) as R.
+    destruct r as [a'| | |]; auto. destruct R as (-> & R1 & R2 & R3). auto. }
+  unfold find_next_free_cluster in E0 at 1 2.
+  hstep (hr_try _ _ _ MI _ (T_find X1 w _ G Hendle
+           (N.to_nat ((v_clusters v0 + RESERVED_ENTRIES) / 128) + 3) start)) (conj HM (conj HXs Hal : X1 (s_disk s))) a1.
+  2:{ exact T. }
+  destruct a1 as [a1|e1].
+  - destruct T as (HM1 & HX1 & R1 & R2 & R3). rewrite bind_ret in E0.
+    exact (Hrest a1 s0 (conj HM1 HX1) (or_introl R1) R2 R3 E0).
+  - destruct T as (HM1 & HX1).
+    destruct e1; try (rewrite bind_fail in E0; inversion E0; subst; exact HM1).
+    destruct (RESERVED_ENTRIES <? start); cbv iota in E0;
+      [|rewrite bind_fail in E0; inversion E0; subst; exact HM1].
+    hstep (T_find X1 w _ G Hendle (N.to_nat ((v_clusters v0 + RESERVED_ENTRIES) / 128) + 3) RESERVED_ENTRIES)
+          (conj HM1 HX1) a2.
+    2:{ exact (proj1 T). }
+    destruct T as (HM2 & HX2 & R1 & R2 & R3).
+    exact (Hrest a2 s1 (conj HM2 HX2) (or_intror R1) R2 R3 E0).
+Qed.
+
+(* ---- the directory walk that may grow the directory ---- *)
+(* the walk is at an allocated data cluster other than c, or in the fixed FAT16 root region *)
+Definition visit_ok (p : N) (d : disk) : Prop := inr_ p /\ p <> c /\ ent d p <> 0.
+Definition root16 (p : N) : Prop := v_fat32 v0 = false /\ p = CL_ROOT.
+
+Lemma root16_nonfat1 i : v_fat32 v0 = false -> v_lba v0 + v_root_block v0 <= i -> nonfat1 i.
+Proof.
+  intros H32 Hi k Hk E. specialize (Hroot16 H32). subst i.
+  unfold fat_copy_sector, fat_copy_start in Hi. change (0 =? 0) with true in Hi. cbv iota in Hi. lia.
+Qed.
+
+Section Walk.
+Context {R : Type}.
+Variable body : N -> M (option R).
+Hypothesis Hbody : forall X blk, st1 X -> nonfat1 blk ->
+  hr (fun s => MI s /\ X (s_disk s)) (fun _ s' => MI s' /\ X (s_disk s')) MI (body blk).
+
+Lemma T_blocks X first size : st1 X ->
+  (forall i, first <= i -> i < first + size -> nonfat1 i) ->
+  hr (fun s => MI s /\ X (s_disk s)) (fun _ s' => MI s' /\ X (s_disk s')) MI (for_blocks first size body).
+Proof.
+  intros HX Hnf. unfold for_blocks. eapply hr_bind.
+  { apply hr_pure'; [apply PrOrder.keeps_add32|intros s H; exact (proj1 H)]. }
+  intros ?. apply (T_loop _ _ first (first + size)).
+  - intros i H1 H2. apply Hbody; [exact HX|]. apply Hnf; assumption.
+  - lia.
+  - lia.
+Qed.
+
+Lemma T_walk : forall fuel p,
+  hr (fun s => MI s /\ (root16 p \/ visit_ok p (s_disk s))) (fun _ s' => MI s') MI
+     (walk_dir fuel vi p true body).
+Proof.
+  induction fuel as [|f IH]; intros p s r s' (HM & Hp) E0; cbn [walk_dir] in E0.
+  { inversion E0; subst. exact I. }
+  destruct (proj1 HM) as (w & Hw & G & Hh).
+  rewrite (bind_ok _ _ _ _ _ (get_vol_some vi w s Hw)) in E0.
+  destruct (geo_w w G) as (Lw & Ecl & E32 & Espc & _ & Ere & Elba & Erb & _ & _ & Eent & Elnk & Ecfb).
+  pose proof (fl_vol w fsz Lw) as Hv.
+  destruct Hp as [(H32 & ->)|(Hp1 & Hpc & Hpz)].
+  - (* the fixed root region of a FAT16 volume *)
+    unfold cluster_to_block in E0. rewrite E32, H32 in E0. change (CL_ROOT =? CL_ROOT) with true in E0.
+    cbv iota in E0. unfold bind at 1 in E0.
+    destruct (add32 (v_lba w) (v_root_block w) s) as [o1 s1] eqn:Ea.
+    unfold add32 in Ea. destruct (_ <? U32); inversion Ea; subst o1 s1; clear Ea; [|inversion E0; subst; exact I].
+    cbv beta iota zeta in E0. cbn [negb andb] in E0.
+    assert (P1 : MI s /\ (fun _ => True) (s_disk s)) by (split; [exact HM|exact I]).
+    hstep (T_blocks (fun _ => True) (v_lba w + v_root_block w) (from_bytes (v_root_entries w * 32)) (proj1 stb_true)
+             (fun i H1 _ => root16_nonfat1 i H32 ltac:(rewrite <- Elba, <- Erb; exact H1))) P1 r1.
+    2:{ exact T. }
+    destruct r1; inversion E0; subst; exact (proj1 T).
+  - (* a cluster of the chain *)
+    assert (Hp2 : p < v_clusters w + 2) by (rewrite Ecl; exact (proj2 Hp1)).
+    rewrite (bind_ok _ _ _ _ _ (proj1 (cluster_block_ok w p s Hv (proj1 Hp1) Hp2))) in E0.
+    assert (Hnr : (p =? CL_ROOT) = false) by (apply N.eqb_neq; exact (in_range_not_root w p Hv Hp2)).
+    rewrite Hnr, andb_false_r in E0. cbv beta iota zeta in E0. rewrite Ecfb, Espc in E0.
+    set (Xp := fun d => ent d p <> 0).
+    assert (P1 : MI s /\ Xp (s_disk s)) by (split; assumption).
+    hstep (T_blocks Xp (cluster_first_block v0 p) (v_spc v0) (proj1 (stb_alloc p Hp1))
+             (fun i H1 H2 => ltac:(replace i with (cluster_first_block v0 p + (i - cluster_first_block v0 p)) by lia;
+                                    apply cluster_blocks_nonfat1; [exact Hp1|lia]))) P1 r1.
+    2:{ exact T. }
+    destruct T as (HM1 & Hpz1).
+    destruct r1 as [x|]; [inversion E0; subst; exact HM1|].
+    unfold bind at 1 in E0. destruct (try (next_cluster w p) s0) as [o2 s2] eqn:E2.
+    destruct (next_cluster_any w p s0 o2 s2 Hv Hp2 (proj1 (proj2 HM1)) E2) as (M2 & D2 & C2 & Ho2).
+    assert (HM2 : MI s2) by (apply (MI_same s0); assumption).
+    rewrite Eent, Elnk in Ho2.
+    destruct Ho2 as [-> | ->]; [inversion E0; subst; exact HM2|].
+    destruct (lnk (ent (s_disk s0) p)) as [n|e] eqn:El.
+    + destruct (di_closed _ (proj2 (proj2 HM1)) p n Hp1 Hpz1 El) as (N1 & N2 & N3).
+      apply (IH n s2 r s'); [|exact E0]. split; [exact HM2|]. right. rewrite D2.
+      split; [exact N1|split; [exact N2|exact N3]].
+    + destruct e; try (inversion E0; subst; exact HM2).
+      assert (P2 : MI s2 /\ (fun _ => True) (s_disk s2) /\ ent (s_disk s2) p <> 0)
+        by (split; [exact HM2|split; [exact I|rewrite D2; exact Hpz1]]).
+      hstep (T_alloc (fun _ => True) p stb_true Hp1 Hpc) P2 a.
+      2:{ exact T. }
+      destruct T as (HM3 & _ & A1 & A2 & A3).
+      apply (IH a s1 r s'); [|exact E0]. split; [exact HM3|]. right.
+      split; [exact A1|split; [exact A2|exact A3]].
+Qed.
+End Walk.
+
+(* the body of write_new_directory_entry: read the block, and if it has a free slot put the
+   entry there and write the block back *)
+Lemma T_create_body fat32 name attr fc X blk : st1 X -> nonfat1 blk ->
+  hr (fun s => MI s /\ X (s_disk s)) (fun (_ : option dirent) s' => MI s' /\ X (s_disk s')) MI
+     (b <- cache_read blk ;;
+      match free_slot 16 b 0 with
+      | Some i =>
+          ctime <- get_timestamp ;;
+          let e := mk_dirent name ctime ctime attr fc 0 blk (i * 32) in
+          bytes <- serialize fat32 e ;;
+          cache_modify (fun b => set_bytes b (i * 32) bytes) ;;;
+          write_back ;;; ret (Some e)
+      | None => ret None
+      end).
+Proof.
+  intros HX Hb. eapply hr_bind; [apply T_cache_read|]. intros b. cbn beta.
+  destruct (free_slot 16 b 0) as [i|]; [|apply hr_ret; intros s (H1 & H2 & _); auto].
+  eapply hr_bind.
+  { apply T_get_timestamp. exact (noclock_MI_tag X blk). }
+  intros ctime. cbv zeta. cbn beta. eapply hr_bind.
+  { apply hr_pure'; [apply PrOrder.keeps_serialize|intros s H; exact (proj1 H)]. }
+  intros bytes. cbn beta. eapply hr_bind.
+  { eapply hr_weaken; [| | |apply (T_cache_modify X blk _ MI)].
+    - intros s ((Hg & _ & HD) & H2 & Ht). split; [|exact H2]. split; [exact Hg|]. split; [exact HD|exact Ht].
+    - intros a s H. exact H.
+    - intros s H. exact H. }
+  intros ?. cbn beta. eapply hr_bind; [apply T_write_back; assumption|].
+  intros ?. cbn beta. apply hr_ret. intros s H. exact H.
+Qed.
+
+Definition start_ok (dc : N) (d : disk) : Prop :=
+  root16 (dir_first_cluster v0 dc) \/ visit_ok (dir_first_cluster v0 dc) d.
+
+Lemma T_write_new_directory_entry dc name attr fc :
+  hr (fun s => MI s /\ start_ok dc (s_disk s)) (fun _ s' => MI s') MI
+     (write_new_directory_entry vi dc name attr fc).
+Proof.
+  intros s r s' (HM & Hst) E0. unfold write_new_directory_entry in E0.
+  destruct (proj1 HM) as (w & Hw & G & Hh).
+  rewrite (bind_ok _ _ _ _ _ (get_vol_some vi w s Hw)) in E0.
+  assert (Ed : dir_first_cluster w dc = dir_first_cluster v0 dc) by (destruct G as (a & b & ->); reflexivity).
+  rewrite Ed in E0.
+  hstep (T_walk _ (fun X blk => T_create_body (v_fat32 w) name attr fc X blk) (walk_fuel w) (dir_first_cluster v0 dc))
+        (conj HM Hst) r1.
+  2:{ exact T. }
+  destruct r1; inversion E0; subst; exact T.
+Qed.
+
+(* ---- the invariant makes the clean-up total ---- *)
+Lemma MI_cleanup_ready s : MI s -> cleanup_ready vi c s.
+Proof.
+  intros ((w & Hw & G & Hh) & Hc0 & HD).
+  destruct (geo_w w G) as (Lw & Ecl & _ & _ & _ & _ & _ & _ & _ & _ & Eent & Elnk & _).
+  split; [exact Hc0|]. exists w. split; [exact Hw|]. split; [exact (fl_vol w fsz Lw)|].
+  assert (Hcw : c < v_clusters w + 2) by (rewrite Ecl; exact (proj2 Hc)).
+  split; [exact (layout_addr w fsz c Lw Hcw)|]. split; [exact (proj1 Hc)|]. split; [exact Hcw|].
+  unfold eoc_on_disk. rewrite Eent, Elnk. exact (di_eoc _ HD).
+Qed.
+
+Lemma data_block_nonfat1 p k : inr_ p -> nonfat1 (cluster_first_block v0 p + k).
+Proof. intros (H1 & _) q Hq E. exact (fat_sector_not_data v0 fsz 0 q p k L Hq H1 (eq_sym E)). Qed.
+
+(* ---- reporting, with a precondition on the state ---- *)
+Definition repS {A} (P : st -> Prop) (m : M A) : Prop :=
+  forall s r s', P s -> m s = (r, s') -> exists new, ext s s' new /\ (fails new -> exists e, r = Err e).
+
+Lemma repS_of_rep {A} (P : st -> Prop) (m : M A) : rep (fun _ => True) false m -> repS P m.
+Proof.
+  intros Hm s r s' _ E. destruct (Hm _ _ _ E) as (n & X & F). exists n. split; [exact X|].
+  intros Hf. specialize (F Hf). destruct r; cbn in F; try contradiction; try discriminate. eauto.
+Qed.
+
+Lemma repS_bind {A B} (P : st -> Prop) (Q : A -> st -> Prop) E (m : M A) (k : A -> M B) :
+  rep (fun _ => True) false m -> hr P Q E m -> (forall a, repS (Q a) (k a)) -> repS P (bind m k).
+Proof.
+  intros Hm Hh Hk s r s' HP E0. unfold bind in E0. destruct (m s) as [r1 s1] eqn:E1.
+  destruct (Hm _ _ _ E1) as (n1 & X1 & F1). pose proof (Hh _ _ _ HP E1) as H1.
+  destruct r1 as [a|e| |].
+  - destruct (Hk a _ _ _ H1 E0) as (n2 & X2 & F2). exists (n2 ++ n1).
+    split; [eapply ext_trans; eassumption|]. intros Hf. apply fails_app in Hf.
+    destruct Hf as [Hf|Hf]; [auto|]. destruct (F1 Hf).
+  - inversion E0; subst. exists n1. split; [exact X1|]. intros _. eauto.
+  - inversion E0; subst. exists n1. split; [exact X1|]. intros Hf. specialize (F1 Hf). discriminate.
+  - inversion E0; subst. exists n1. split; [exact X1|]. intros Hf. specialize (F1 Hf). discriminate.
+Qed.
+
+(* a catch site whose handler must yield an error when the caught error is DeviceError *)
+Lemma repS_try_bind {A B} (P : st -> Prop) (Q : A -> st -> Prop) (E : st -> Prop) (m : M A) (k : A + err -> M B) :
+  rep (eq DeviceError) false m -> hr P Q E m ->
+  (forall a, repS (Q a) (k (inl a))) -> (forall e, repS E (k (inr e))) ->
+  (forall s r s', E s -> k (inr DeviceError) s = (r, s') -> exists e, r = Err e) ->
+  repS P (bind (try m) k).
+Proof.
+  intros Hm Hh Hk1 Hk2 Hd s r s' HP E0. unfold bind, try in E0. destruct (m s) as [r1 s1] eqn:E1.
+  destruct (Hm _ _ _ E1) as (n1 & X1 & F1). pose proof (Hh _ _ _ HP E1) as H1.
+  destruct r1 as [a|e| |].
+  - destruct (Hk1 a _ _ _ H1 E0) as (n2 & X2 & F2). exists (n2 ++ n1).
+    split; [eapply ext_trans; eassumption|]. intros Hf. apply fails_app in Hf.
+    destruct Hf as [Hf|Hf]; [auto|]. destruct (F1 Hf).
+  - destruct (Hk2 e _ _ _ H1 E0) as (n2 & X2 & F2). exists (n2 ++ n1).
+    split; [eapply ext_trans; eassumption|]. intros Hf. apply fails_app in Hf.
+    destruct Hf as [Hf|Hf]; [auto|]. specialize (F1 Hf). cbn in F1. subst e. exact (Hd _ _ _ H1 E0).
+  - inversion E0; subst. exists n1. split; [exact X1|]. intros Hf. specialize (F1 Hf). discriminate.
+  - inversion E0; subst. exists n1. split; [exact X1|]. intros Hf. specialize (F1 Hf). discriminate.
+Qed.
+
+(* ---- make_dir after the allocation of c ---- *)
+Definition make_dir_rest (parent : N) (sfn : list N) (att : N) : M unit :=
+  v <- get_vol vi ;;
+  start <- cluster_to_block v c ;;
+  now <- get_timestamp ;;
+  blank_mut start ;;;
+  dot <- serialize (v_fat32 v) (mk_dirent THIS_DIR_NAME now now att c 0 start 0) ;;
+  dotdot <- serialize (v_fat32 v)
+              (mk_dirent PARENT_DIR_NAME now now att (if parent =? CL_ROOT then CL_EMPTY else parent) 0 start 32) ;;
+  cache_modify (fun b => set_bytes (set_bytes b 0 dot) 32 dotdot) ;;;
+  write_back ;;;
+  _ <- add32 start (v_spc v) ;;
+  _ <- for_blocks_from (N.to_nat (v_spc v) - 1) (start + 1)
+         (fun i => blank_mut i ;;; write_back ;;; ret (@None unit)) ;;
+  r <- try (write_new_directory_entry vi parent sfn att c) ;;
+  match r with
+  | inl _ => ret tt
+  | inr e => free_cluster_chain vi c ;;; fail e
+  end.
+
+Lemma st1_start_ok parent : st1 (start_ok parent).
+Proof.
+  intros D d F [H|(H1 & H2 & H3)]; [left; exact H|right].
+  split; [exact H1|]. split; [exact H2|]. rewrite (fat1eq_ent D d _ F (inr_in_fat _ H1)). exact H3.
+Qed.
+
+Lemma T_ctb (P : st -> Prop) w : PrChain.geo_eq v0 w ->
+  hr P (fun st s' => P s' /\ st = cluster_first_block v0 c) P (cluster_to_block w c).
+Proof.
+  intros G s r s' HP E0. destruct (geo_w w G) as (Lw & Ecl & _ & _ & _ & _ & _ & _ & _ & _ & _ & _ & Ecfb).
+  assert (Hcw : c < v_clusters w + 2) by (rewrite Ecl; exact (proj2 Hc)).
+  rewrite (proj1 (cluster_block_ok w c s (fl_vol w fsz Lw) (proj1 Hc) Hcw)) in E0.
+  inversion E0; subst. split; [exact HP|apply Ecfb].
+Qed.
+
+Theorem make_dir_rest_reports parent sfn att :
+  repS (fun s => MI s /\ start_ok parent (s_disk s)) (make_dir_rest parent sfn att).
+Proof.
+  pose proof I as PD. pose proof (st1_start_ok parent) as SX.
+  unfold make_dir_rest.
+  eapply repS_bind; [rep_auto|apply (T_get_vol _ MI); intros s H; exact (proj1 (proj1 H))|]. intros w. cbn beta.
+  (* from here on the geometry of w is known *)
+  assert (Hgo : forall (G : PrChain.geo_eq v0 w),
+    repS (fun s => MI s /\ start_ok parent (s_disk s))
+     (start <- cluster_to_block w c ;;
+      now <- get_timestamp ;;
+      blank_mut start ;;;
+      dot <- serialize (v_fat32 w) (mk_dirent THIS_DIR_NAME now now att c 0 start 0) ;;
+      dotdot <- serialize (v_fat32 w)
+                  (mk_dirent PARENT_DIR_NAME now now att (if parent =? CL_ROOT then CL_EMPTY else parent) 0 start 32) ;;
+      cache_modify (fun b => set_bytes (set_bytes b 0 dot) 32 dotdot) ;;;
+      write_back ;;;
+      _ <- add32 start (v_spc w) ;;
+      _ <- for_blocks_from (N.to_nat (v_spc w) - 1) (start + 1)
+             (fun i => blank_mut i ;;; write_back ;;; ret (@None unit)) ;;
+      r <- try (write_new_directory_entry vi parent sfn att c) ;;
+      match r with
+      | inl _ => ret tt
+      | inr e => free_cluster_chain vi c ;;; fail e
+      end)).
+  2:{ intros s r s' (HP & _ & G & _) E0. exact (Hgo G s r s' HP E0). }
+  intros G.
+  eapply repS_bind; [rep_auto|apply (T_ctb _ w G)|]. intros start. cbn beta.
+  intros s r s' (HP & ->) E0. revert s r s' HP E0.
+  change (repS (fun s => MI s /\ start_ok parent (s_disk s)) ?m) with (repS (fun s => MI s /\ start_ok parent (s_disk s)) m).
+  eapply repS_bind; [rep_auto|apply (T_get_timestamp _ MI); exact (noclock_MI (start_ok parent))|]. intros now. cbn beta.
+  eapply repS_bind; [rep_auto|apply (T_blank_mut (start_ok parent) _ MI)|]. intros ?. cbn beta.
+  eapply repS_bind; [rep_auto|apply hr_pure; apply PrOrder.keeps_serialize|]. intros dot. cbn beta.
+  eapply repS_bind; [rep_auto|apply hr_pure; apply PrOrder.keeps_serialize|]. intros dotdot. cbn beta.
+  eapply repS_bind; [rep_auto|apply (T_cache_modify (start_ok parent) _ _ MI)|]. intros ?. cbn beta.
+  eapply repS_bind; [rep_auto2|apply (T_write_back (start_ok parent)); [|exact SX]|].
+  { replace (cluster_first_block v0 c) with (cluster_first_block v0 c + 0) by lia. apply data_block_nonfat1. exact Hc. }
+  intros ?. cbn beta.
+  eapply repS_bind; [rep_auto|apply hr_pure; apply PrOrder.keeps_add32|]. intros ?. cbn beta.
+  eapply repS_bind.
+  { apply rep_for_blocks_from. intros i. rep_auto2. }
+  { apply (T_loop _ _ (cluster_first_block v0 c + 1)
+                  (cluster_first_block v0 c + 1 + N.of_nat (N.to_nat (v_spc w) - 1))).
+    - intros i H1 H2. replace i with (cluster_first_block v0 c + (i - cluster_first_block v0 c)) by lia.
+      apply T_blank_write; [|exact SX]. apply data_block_nonfat1. exact Hc.
+    - lia.
+    - lia. }
+  intros ?. cbn beta.
+  apply (repS_try_bind _ (fun _ _ => True) MI).
+  - apply rep_write_new_directory_entry. reflexivity.
+  - eapply hr_weaken; [| | |apply T_write_new_directory_entry]; cbn beta; auto.
+  - intros x. apply repS_of_rep. rep_auto.
+  - intros e. apply repS_of_rep. apply rep_bind; [apply rep_free_cluster_chain; exact I|intros ?; apply rep_fail].
+  - intros s r s' HM E0. pose proof (always_then_fail_ready (B := unit) vi c DeviceError s (MI_cleanup_ready s HM) r s' E0) as Hb.
+    destruct r; cbn in Hb; try contradiction; try discriminate. eauto.
+Qed.
+End Mkdir.
+
+(* ---- the precondition of the Mkdir theorem ---- *)
+(* every allocated data cluster that links somewhere links to an allocated data cluster *)
+Definition fat_closed (v : vol) (d : disk) : Prop :=
+  forall j n, inr_ v j -> ent v d j <> 0 -> lnk v (ent v d j) = inl n -> inr_ v n /\ ent v d n <> 0.
+(* the directory starts in the fixed FAT16 root region or at an allocated data cluster *)
+Definition dir_start_ok (v : vol) (dc : N) (d : disk) : Prop :=
+  root16 v (dir_first_cluster v dc) \/
+  (inr_ v (dir_first_cluster v dc) /\ ent v d (dir_first_cluster v dc) <> 0).
+
+Record mkdir_pre (vi : nat) (v : vol) (fsz parent : N) (s : st) : Prop := mk_mkdir_pre {
+  mp_vol : nth_error (s_vols s) vi = Some v;
+  mp_hint : hint_ok v;
+  mp_cache : cache_ok s;
+  mp_len : PrCrash.fat_len_ok v fsz (s_disk s);
+  mp_closed : fat_closed v (s_disk s);
+  mp_start : dir_start_ok v parent (s_disk s)
+}.
+
+Section MkdirTop.
+Variables (vi : nat) (v : vol) (fsz : N).
+Hypothesis L : fat_layout v fsz.
+Hypothesis Hfits : PrCrash.fat_fits v.
+Hypothesis Hroot16 : v_fat32 v = false -> v_fat_start v + fsz <= v_root_block v.
+
+(* the first allocation: an Ok result is the result of the fault-free run (pfx), so the effect
+   theorem of PrAllocEffect applies; it establishes the invariant for the new cluster *)
+Lemma alloc_first parent :
+  hr (mkdir_pre vi v fsz parent)
+     (fun c s1 => inr_ v c /\ MI vi v fsz c s1 /\ start_ok v c parent (s_disk s1)) (fun _ => True)
+     (alloc_cluster vi None false).
+Proof.
+  intros s r s' [Hv Hh Hc Hlen Hcl Hst] E. destruct r as [c| | |]; try exact I.
+  pose proof (pfx_ok_is_fault_free _ (pfx_alloc_cluster vi None false) s c s' E) as En.
+  assert (Hpre : alloc_pre (nf s) vi v fsz).
+  { split; [|split; [exact L|exact Hh]]. split; [apply nf_no_faults|]. split; [exact Hc|]. split; [exact Hv|exact Hlen]. }
+  assert (Hprev : forall p, @None N = Some p -> p < v_clusters v + 2) by (intros p H; discriminate).
+  destruct (alloc_cluster_effect vi v fsz None false (nf s) c (nf s') Hpre Hprev En)
+    as [(A1 & A1' & A1z) A2 _ A4 _ (nf' & A6 & A6') _ _ _ (_ & A10c & A10l) _].
+  change (s_disk (nf s)) with (s_disk s) in *. change (s_disk (nf s')) with (s_disk s') in *.
+  change (s_vols (nf s)) with (s_vols s) in *. change (s_vols (nf s')) with (s_vols s') in *.
+  assert (Hcr : inr_ v c) by (split; assumption).
+  assert (Hnew : ent v (s_disk s') c = enc v CL_EOF) by (apply A2; discriminate).
+  assert (Hoth : forall j, inr_ v j -> j <> c -> ent v (s_disk s') j = ent v (s_disk s) j).
+  { intros j Hj Hne. apply A4; [exact (layout_sector v fsz j L (proj2 Hj))|exact Hne|discriminate]. }
+  split; [exact Hcr|]. split; [split; [|split]|].
+  - eexists. split; [rewrite A6; exact (PrAllocEffect.ls_nth_same _ _ _ _ Hv)|].
+    split; [eexists; eexists; reflexivity|]. intros h Eh. cbn in Eh. subst nf'. exact (proj1 A6').
+  - exact A10c.
+  - constructor.
+    + exact A10l.
+    + rewrite Hnew. exact (proj1 (lnk_eof v)).
+    + intros j n Hj Hz Hl. destruct (N.eq_dec j c) as [->|Hne].
+      * rewrite Hnew, (proj1 (lnk_eof v)) in Hl. discriminate.
+      * rewrite (Hoth j Hj Hne) in Hz, Hl. destruct (Hcl j n Hj Hz Hl) as (N1 & N2).
+        assert (Hnc : n <> c) by (intros ->; contradiction).
+        split; [exact N1|]. split; [exact Hnc|]. rewrite (Hoth n N1 Hnc). exact N2.
+  - destruct Hst as [Hst|(P1 & P2)]; [left; exact Hst|right].
+    assert (Hpc : dir_first_cluster v parent <> c) by (intros E0; rewrite E0 in P2; contradiction).
+    split; [exact P1|]. split; [exact Hpc|]. rewrite (Hoth _ P1 Hpc). exact P2.
+Qed.
+
+Theorem make_dir_reports parent sfn att : repS (mkdir_pre vi v fsz parent) (make_dir vi parent sfn att).
+Proof.
+  change (make_dir vi parent sfn att)
+    with (c <- alloc_cluster vi None false ;; make_dir_rest vi c parent sfn att).
+  eapply repS_bind; [apply rep_alloc_cluster; exact I|apply alloc_first|].
+  intros c s r s' (Hc & HM & Hs) E.
+  exact (make_dir_rest_reports vi v fsz c L Hfits Hroot16 Hc parent sfn att s r s' (conj HM Hs) E).
+Qed.
+
+(* the lookup before make_dir only reads: the precondition survives it, failed or not *)
+Lemma find_keeps_pre parent dc sfn :
+  hr (mkdir_pre vi v fsz parent) (fun _ _ => True) (mkdir_pre vi v fsz parent) (find_directory_entry vi dc sfn).
+Proof.
+  intros s r s' [Hv Hh Hc Hlen Hcl Hst] E. destruct r as [a|e| |]; try exact I.
+  destruct (find_directory_entry_reads_only _ _ _ _ _ _ E) as (M & D & _).
+  pose proof (cok_find_directory_entry _ _ _ _ _ _ E Hc) as Hc'.
+  constructor; try rewrite D; try assumption. rewrite (same_mgr_vols_eq _ _ M). exact Hv.
+Qed.
+End MkdirTop.
+
+(* C11 for Mkdir, the full statement: if any block-device call fails during the call, the call
+   returns an error - not success, not a panic, not a hang.  Precondition: the handles resolve,
+   the volume geometry is consistent (PrAllocEffect.fat_layout, the cluster count fits the FAT
+   type, the FAT16 root region lies behind the FAT), the hint is no reserved entry, the cache is
+   coherent, the sectors of the first FAT copy are full blocks, the FAT is closed (allocated
+   clusters link to allocated data clusters) and the parent directory starts at an allocated
+   cluster (or is the FAT16 root).  The fault schedule is arbitrary. *)
+Theorem C11_reports_mkdir : forall s d name di dd vi v fsz out s',
+  resolves s d di dd vi v ->
+  fat_layout v fsz -> PrCrash.fat_fits v ->
+  (v_fat32 v = false -> v_fat_start v + fsz <= v_root_block v) ->
+  mkdir_pre vi v fsz (d_cluster dd) s ->
+  run_op (Mkdir d name) s = (out, s') -> fault_fired s s' -> exists e, out = Err e.
+Proof.
+  intros s d name di dd vi v fsz out s' Hres L Hfits Hroot Hpre E (new & Xn & Hf).
+  unfold run_op in E. cbn [step] in E. unfold lift, bind in E.
+  destruct (make_dir_in_dir d name s) as [o1 s1] eqn:E1.
+  assert (Hrep : exists n1, ext s s1 n1 /\ (fails n1 -> exists e, o1 = Err e)).
+  { pose proof Hres as (Hl & H1 & H2 & H3 & H4).
+    unfold make_dir_in_dir in E1. rewrite (locked_free _ _ Hl), bind_get in E1.
+    assert (Hq : forall e, (Err e, s) = (o1, s1) -> exists n1, ext s s1 n1 /\ (fails n1 -> exists e, o1 = Err e)).
+    { intros e H. inversion H; subst. exists []. split; [apply ext_refl|]. intros _. eauto. }
+    destruct (is_full (s_dirs s) (s_maxd s)); [exact (Hq _ E1)|].
+    rewrite (bind_ok _ _ _ _ _ H1), (bind_ok _ _ _ _ _ H2), (bind_ok _ _ _ _ _ H3) in E1.
+    destruct (sfn_of_str name) as [sfn|]; [|exact (Hq _ E1)].
+    destruct (list_eqb sfn THIS_DIR_NAME || list_eqb sfn PARENT_DIR_NAME); [exact (Hq _ E1)|].
+    revert E1. apply (repS_try_bind (mkdir_pre vi v fsz (d_cluster dd)) (fun _ _ => True)
+                        (mkdir_pre vi v fsz (d_cluster dd))); [| | | | |exact Hpre].
+    - apply rep_find_directory_entry. reflexivity.
+    - apply find_keeps_pre.
+    - intros a. apply repS_of_rep. rep_auto.
+    - intros e. destruct e; try (apply repS_of_rep; rep_auto).
+      apply make_dir_reports; assumption.
+    - intros s2 r2 s2' _ H. inversion H; subst. eauto. }
+  destruct Hrep as (n1 & X1 & F1).
+  destruct o1 as [a|e| |]; inversion E; subst.
+  - rewrite (ext_unique _ _ _ _ Xn X1) in Hf. destruct (F1 Hf) as (e & He). discriminate.
+  - eauto.
+  - rewrite (ext_unique _ _ _ _ Xn X1) in Hf. destruct (F1 Hf) as (e & He). discriminate.
+  - rewrite (ext_unique _ _ _ _ Xn X1) in Hf. destruct (F1 Hf) as (e & He). discriminate.
+Qed.
